@@ -9,6 +9,9 @@ CONSTANT SampleMod = 1
 CONSTANT SamplePick = 0
 CONSTANT ValMod = 1
 CONSTANT ValPick = 0
+CONSTANT MaxApps = 3
+CONSTANT HistMod = 1
+CONSTANT HistPick = 0
 SPECIFICATION TraceSpec
 INVARIANT TraceConsumed
 CHECK_DEADLOCK FALSE
